@@ -116,6 +116,7 @@ class RecWorld(World):
         ent["q"] = len(lay._paused_event_queue)
         ent["n"] = len(lay.flow.messages) if lay.flow else 0
         ent["live"], ent["err"] = flow_flags(lay)
+        ent["m"] = flow_msgs(lay)
 
 
 def set_last(flow, content):
@@ -198,6 +199,13 @@ def do_connect_action(w, ctx, cmd, what, openreplies):
         w.finish_connect(cmd, "boom")
     else:
         w.finish_connect(cmd, None)
+
+
+def flow_msgs(lay):
+    """contents of flow.messages as the model renders them: direction + bytes of every message"""
+    f = getattr(lay, "flow", None)
+    if f is None or not f.messages: return "-"
+    return ",".join(("c" if m.from_client else "s") + ":" + hx(m.content) for m in f.messages)
 
 
 def flow_flags(lay):
@@ -297,6 +305,7 @@ class ChildTap:
             ent["q"] = len(lay._paused_event_queue)
             ent["n"] = len(lay.flow.messages) if lay.flow else 0
             ent["live"], ent["err"] = flow_flags(lay)
+            ent["m"] = flow_msgs(lay)
         frozen = False
         try:
             for c in lay.handle_event(event):
@@ -413,7 +422,7 @@ class Check(PropertyCheck):
                   "TCPLayer/UDPLayer + Layer pause/replay-queue model: relay_exact_per_direction (+ "
                   "recorded_messages_are_arrivals_with_edits: whole history, recorded = arrivals with the addon's edit of each "
                   "completed message hook applied one for one, one_recorded_message_per_completed_hook; addon_edit_is_what_is_sent, "
-                  "inject_is_spoofed_data, kill_in_message_hook_still_relays, kill_is_plain_completion), "
+                  "inject_is_spoofed_data, kill_in_message_hook_still_relays, kill_is_plain_completion + kill_is_plain_completion_cases (which disjunct: ignored exactly when no hook is pending)), "
                   "half_close_propagated_while_other_direction_flows, half_close_emitted_once_quiescent (closes buffered behind "
                   "hooks), full_close_only_when_ending, tcp_ends_only_when_both_directions_closed, at_most_one_end_or_error, "
                   "exactly_one_end_or_error (+ exactly_one_end_or_error_of_schedule: `started` derived from Start being in the "
@@ -429,7 +438,8 @@ class Check(PropertyCheck):
                   "(relay exact, at most one end/error, nothing after end, no full close while relaying) also hold when "
                   "write_eof raises OSError on either socket (close_connection's except branch, initX). Proved by invariants "
                   "over the run, no bound on schedule length. Tie: step-by-step comparison with the real layers through world.py "
-                  "of commands, connection states, handler, pause flag, queue length, message count and the model-PREDICTED "
+                  "of commands, connection states, handler, pause flag, queue length, the CONTENTS of flow.messages (direction + "
+                  "bytes of every recorded message, rendered by the driver as m=... and compared each step) and the model-PREDICTED "
                   "flow.live / flow.error flags; families: plain, dead sockets (OSError branch emulated as in server.py), and the "
                   "real TCPLayer under a real tunnel layer (HttpUpstreamProxy / tunnel.py; tie at the tunnel/TCPLayer boundary, "
                   "property oracle on what reaches the transport connection).")
@@ -471,7 +481,7 @@ class Check(PropertyCheck):
     def known_selftest(self):
         """doctored observations just outside what the oracle excuses (independent of the tree under test)"""
         def st(inp, out, pre, c, s_, ph="relay", paused=0, q=0, n=0):
-            return {"in": inp, "out": out, "pre": pre, "c": c, "s": s_, "ph": ph, "paused": paused, "q": q, "n": n, "live": 1, "err": 0}
+            return {"in": inp, "out": out, "pre": pre, "c": c, "s": s_, "ph": ph, "paused": paused, "q": q, "n": n, "live": 1, "err": 0, "m": "-"}
         case = {"proto": "tcp", "flow": 1, "connected": 1, "sched": []}
         head = [st("start", ["H:start"], "rwrw", "rw", "rw", "start", 1), st("hook none", [], "rwrw", "rw", "rw")]
 
@@ -806,11 +816,11 @@ class Check(PropertyCheck):
 
     def impl_view(self, case, obs):
         if case.get("tunnel"):
-            return ["%s ph=%s paused=%d q=%d n=%d live=%d err=%d" % (",".join(st["out"]) or "-", st["ph"], st["paused"], st["q"],
-                                                                     st["n"], st["live"], st["err"]) for st in obs["csteps"]] + \
+            return ["%s ph=%s paused=%d q=%d n=%d live=%d err=%d m=%s" % (",".join(st["out"]) or "-", st["ph"], st["paused"], st["q"],
+                                                                          st["n"], st["live"], st["err"], st["m"]) for st in obs["csteps"]] + \
                 [r for _, _, r in obs.get("openreplies", [])]
-        return ["%s c=%s s=%s ph=%s paused=%d q=%d n=%d live=%d err=%d" % (",".join(st["out"]) or "-", st["c"], st["s"], st["ph"],
-                                                                             st["paused"], st["q"], st["n"], st["live"], st["err"])
+        return ["%s c=%s s=%s ph=%s paused=%d q=%d n=%d live=%d err=%d m=%s" % (",".join(st["out"]) or "-", st["c"], st["s"], st["ph"],
+                                                                                  st["paused"], st["q"], st["n"], st["live"], st["err"], st["m"])
                 for st in obs["steps"]] + [r for _, _, r in obs.get("openreplies", [])]
 
     def classify(self, case, obs):
